@@ -17,6 +17,8 @@ class Build:
     def __init__(self):
         self.dir = tempfile.mkdtemp(prefix='verif-engA-')
         self.explorer = os.path.join(self.dir, 'explorer')
+        self.dump_dir = os.path.join(self.dir, 'dump')
+        os.makedirs(self.dump_dir, exist_ok=True)
         src = os.path.join(VERIF, 'engines', 'symfloat')
         hdr = os.path.join(REPO, 'depccg', 'parsing.h')
         cmd = ['g++', '-O2', '-std=c++17', '-DPARSING_H="%s"' % hdr, '-I', src, os.path.join(src, 'explorer.cpp'), '-o', self.explorer, '-lz3']
@@ -47,7 +49,7 @@ def _run(cmd, timeout):
     return rc, recs
 
 
-def run_obligation(build, name, spec, max_seconds=300.0, frontier=256, pool=None):
+def run_obligation(build, name, spec, max_seconds=300.0, frontier=256, pool=None, dump_every=0):
     """returns dict(name, paths, violations=[...], records=[...], summary fields, exhaustive)"""
     t0 = time.time()
     sf = os.path.join(build.dir, 'spec_%d_%d.txt' % (os.getpid(), abs(hash(name)) % 10 ** 9))
@@ -91,7 +93,8 @@ def run_obligation(build, name, spec, max_seconds=300.0, frontier=256, pool=None
             rem = deadline - time.time()
             if rem < 1.0:
                 return -1, [dict(type='summary', exhausted=False, unexplored=1)]
-            return _run([build.explorer, sf, '--start', f, '--max-seconds', str(rem)], rem + 30)
+            extra = ['--dump-dir', build.dump_dir, '--dump-every', str(dump_every)] if dump_every else []
+            return _run([build.explorer, sf, '--start', f, '--max-seconds', str(rem)] + extra, rem + 30)
         own = pool is None
         ex = pool or concurrent.futures.ThreadPoolExecutor(NPROC)
         futs = [ex.submit(work, f) for f in files]
@@ -128,3 +131,33 @@ def spec_text(n, T, binary, unary=(), roots=(), nbest=1, pruning=None, use_beta=
 def one_tag_per_word(n, T):
     """word i may only use tag i: the other tags of the word are constrained below it (a partition piece of the matrix space)"""
     return [(i, c) for i in range(n) for c in range(T) if c != i]
+
+
+def cross_check(build, limit=60, timeout=60):
+    """re-discharge the dumped per-path queries (path condition & some checked condition: expected unsat) with cvc5 and the z3 binaries"""
+    import glob
+    files = sorted(glob.glob(os.path.join(build.dump_dir, '*.smt2')))[:limit]
+    solvers = [('cvc5', ['cvc5', '--lang', 'smt2']), ('z3-4.8.12', ['/usr/bin/z3']), ('z3-new', ['z3-new'])]
+    res = dict(queries=len(files), agree_unsat=0, disagreements=[], inconclusive=0, solvers=[n for n, _ in solvers])
+    for f in files:
+        answers = {}
+        for name, cmd in solvers:
+            try:
+                p = subprocess.run(cmd + [f], capture_output=True, text=True, timeout=timeout)
+                out = (p.stdout + p.stderr).strip().splitlines()
+                a = out[0].strip() if out else 'no-output'
+                if '(error' in (p.stdout + p.stderr):
+                    a = 'error'
+            except subprocess.TimeoutExpired:
+                a = 'timeout'
+            except FileNotFoundError:
+                a = 'missing'
+            answers[name] = a
+        if all(a == 'unsat' for a in answers.values()):
+            res['agree_unsat'] += 1
+        elif any(a == 'sat' for a in answers.values()):
+            res['disagreements'].append(dict(file=os.path.basename(f), answers=answers))
+        else:
+            res['inconclusive'] += 1
+            res.setdefault('inconclusive_answers', []).append(answers)
+    return res
